@@ -164,29 +164,37 @@ def _p_none(rng):
   return {}
 
 
+SEED0_RATE = float(os.environ.get('PGVERIF_C15_SEED0_RATE', '0.1'))
+
+
+def _seed(rng):
+  # 0 is a legal seed (and falsy): a boundary value of its own.
+  return 0 if rng.random() < SEED0_RATE else rng.randint(0, 999)
+
+
 def _p_seed(rng):
-  return {'seed': rng.randint(0, 999)}
+  return {'seed': _seed(rng)}
 
 
 def _p_regevo(rng):
   n = rng.randint(2, 5)
-  return {'seed': rng.randint(0, 999), 'population_size': n,
+  return {'seed': _seed(rng), 'population_size': n,
           'tournament_size': rng.randint(2, n)}
 
 
 def _p_hill(rng):
-  return {'seed': rng.randint(0, 999), 'batch_size': rng.randint(1, 3),
+  return {'seed': _seed(rng), 'batch_size': rng.randint(1, 3),
           'init_population_size': rng.randint(1, 3)}
 
 
 def _p_pop(rng):
-  return {'seed': rng.randint(0, 999), 'population_size': rng.randint(2, 4)}
+  return {'seed': _seed(rng), 'population_size': rng.randint(2, 4)}
 
 
 def _p_neat(rng):
   # NEAT reproduces from the evaluated members of the latest generation only
   # and needs two of them: the population must exceed W + 1.
-  return {'seed': rng.randint(0, 999), 'population_size': rng.randint(5, 6)}
+  return {'seed': _seed(rng), 'population_size': rng.randint(5, 6)}
 
 
 def _regevo(p):
@@ -651,6 +659,10 @@ def run_case(ctx, i):
   sname, spec, has_float, _ = ctx.spaces[si]
   rng = ctx.rng
   params = cfg.params(rng)
+  if 'seed' in params and si % 3 == ctx.seed % 3:
+    # Every seeded configuration is run with the boundary seed 0 (legal, and
+    # falsy) on one of the spaces it is given.
+    params['seed'] = 0
   wmax, m = ctx.params['W'], ctx.params['M']
   c = ctx.counters
   c['cases'] += 1
